@@ -53,6 +53,7 @@ template <class T, size_t N, size_t M> static void run_config(Rng& g) {
     for (int t = 0; t < 8; t++) {
       if (allrows && t != 0 && t != 2 && t != 4 && t != 6) continue;
       if (!allrows && big && !thorough() && (cm > 0 || (t != 0 && t != 4 && t != 6))) continue;
+      if (!allrows && !thorough() && N >= 4096 && N < 32768 && t != 0 && t != 4) continue;
       size_t len = t < 4 ? N : N - 1;
       printf("tab %d %d %zu %zu =>", t, bits<T>(), cm, k);
       for (size_t i = 0; i < len; i++) printf(" %llu", (unsigned long long)tabs[t][i]);
@@ -64,7 +65,7 @@ template <class T, size_t N, size_t M> static void run_config(Rng& g) {
   if (N <= 16) for (size_t i = 0; i < N; i++) kinds.push_back({1, i});
   size_t nrand = big ? 0 : (thorough() ? 6 : 2);
   for (size_t i = 0; i < nrand; i++) kinds.push_back({4, 0});
-  if (big && !thorough()) kinds = {{2, 0}, {4, 0}};
+  if (big && !thorough()) kinds = (N >= 4096 && N < 32768) ? std::vector<std::pair<int, size_t>>{{4, 0}} : std::vector<std::pair<int, size_t>>{{2, 0}, {4, 0}};
   alignas(32) static P a, b, c, d;
   for (auto kd : kinds) {
     Gen<P>::fill(a, kd.first, g, kd.second);
@@ -115,7 +116,8 @@ template <class T, size_t N, size_t M> static void run_config(Rng& g) {
 
 template <class T, size_t N, size_t M, size_t MIN> static void maybe(Rng& g) {
   // quick tier: every degree up to 2048, and the largest one; 4096..16384 in the thorough tier
-  if (!thorough() && N >= 4096 && N < 32768) return;
+  // quick tier: every degree; the full case set up to 2048, a minimal one (one random round trip, one random product,
+  // phis/omegas tables) for 4096..32768 — the thorough tier runs the larger set there too
   if constexpr (N >= MIN) run_config<T, N, M>(g);
 }
 
